@@ -32,8 +32,9 @@ from cfg import *
 
 RULE = ("check-before-divide on eigenvalue differences (CFG facts per pair), coupling of the mixed eigen-tensor n_ij with the pair (i, j), "
         "agreement of the positive and negative arms - over the instantiations N = 1, 2, 3")
-PAIR = re.compile(r"^vp\((\d)\) - vp\((\d)\)$")
-MEAN = re.compile(r"^(?:vpm - vp\((\d)\)|vp\((\d)\) - vpm)$")
+VP = r"(?:this->)?vp[\(\[](\w+)[\)\]]"
+PAIR = re.compile(r"^%s - %s$" % (VP, VP))
+MEAN = re.compile(r"^(?:vpm - %s|%s - vpm)$" % (VP, VP))
 
 
 def rel(loc):
@@ -63,9 +64,9 @@ def mean_of(f):
         if n["k"] == "DeclStmt":
             for d in n["decls"]:
                 if d.get("name") == "vpm" and "init" in d:
-                    idx = re.findall(r"vp\((\d)\)", f.text(d["init"]))
+                    idx = re.findall(VP, f.text(d["init"]))
                     if len(idx) == 2:
-                        res[d["declId"]] = frozenset(int(i) for i in idx)
+                        res[d["declId"]] = frozenset(idx)
     return res
 
 
@@ -74,10 +75,10 @@ def divisor_key(f, sid, means):
     t = unparen(f.text(f.strip(sid)))
     m = PAIR.match(t)
     if m:
-        return ("pair", frozenset((int(m.group(1)), int(m.group(2)))))
+        return ("pair", frozenset((m.group(1), m.group(2))))
     m = MEAN.match(t)
     if m:
-        k = int(m.group(1) or m.group(2))
+        k = m.group(1) or m.group(2)
         ids = [f.stmts[x].get("declId") for x in f.walk(sid) if f.stmts[x]["k"] == "DeclRefExpr" and f.stmts[x].get("name") == "vpm"]
         if ids and ids[0] in means:
             return ("mean", k, means[ids[0]])
@@ -109,44 +110,77 @@ def guard_rule(rep, f):
         if ln is None or ln["k"] != "CallExpr" or not (ln.get("callee") or "").endswith("abs") or not ln.get("args"):
             return None
         m = PAIR.match(unparen(f_.text(f_.strip(ln["args"][0]))))
-        if not m or "eps" not in f_.text(r):
-            return None
-        return (("close", frozenset((int(m.group(1)), int(m.group(2))))), op in (">", ">="))
+        if not m or re.search(r"\bvp\b", f_.text(r)):
+            return None     # the threshold is any expression that does not mention the eigenvalues (eps, e, ...)
+        return (("close", frozenset((m.group(1), m.group(2)))), op in (">", ">="))
     bad, nd = [], [0]
     seen_div = set()
+
+    def distinct(facts, pair):
+        """the pair was tested distinct, or one of its members coincides with an index tested distinct from the other."""
+        if len(pair) != 2:
+            return False
+        if facts.get(("close", pair)) is False:
+            return True
+        i, j = tuple(pair)
+        for (tag, pr), val in facts.items():
+            if tag != "close" or val is not True or len(pr) != 2:
+                continue
+            for a, b in ((i, j), (j, i)):
+                if a in pr:
+                    k_ = next(iter(pr - {a}))
+                    if k_ != b and facts.get(("close", frozenset((k_, b)))) is False:
+                        return True
+        return False
 
     def el(st, b, i, e):
         if "s" not in e:
             return (st,)
         s = e["s"]
         n = f.stmts[s]
+        if (n["k"] == "UnaryOperator" and n.get("op") in ("++", "--")) or \
+                (n["k"] in ("BinaryOperator", "CompoundAssignOperator") and n.get("op") in ("=", "+=", "-=") and
+                 f.stmts.get(f.strip(f.kids(s)[0]), {}).get("k") == "DeclRefExpr"):
+            v = f.text(f.kids(s)[0])
+            st2 = tuple(x for x in st if v not in x[0][1])
+            return (st2,)
+        if n["k"] == "DeclStmt" and st:
+            names = set(d_.get("name") for d_ in n["decls"])
+            st2 = tuple(x for x in st if not (names & set(x[0][1])))
+            if len(st2) != len(st):
+                return (st2,)
+        dv = None
         if n["k"] == "BinaryOperator" and n.get("op") == "/":
-            k = divisor_key(f, f.kids(s)[1], means)
+            dv = f.kids(s)[1]
+        elif n["k"] == "CXXOperatorCallExpr" and n.get("op") == "/" and len(n.get("args", [])) == 2:
+            dv = n["args"][1]
+        if dv is not None:
+            k = divisor_key(f, dv, means)
             if k is not None:
                 if s not in seen_div:
                     seen_div.add(s)
                     nd[0] += 1
                 facts = dict(st)
                 if k[0] == "pair":
-                    if facts.get(("close", k[1])) is not False:
-                        bad.append((s, "vp(%d) - vp(%d)" % tuple(sorted(k[1])), "the coincidence test of that pair was not decided negatively"))
+                    if not distinct(facts, k[1]):
+                        bad.append((s, "vp(%s) - vp(%s)" % tuple(sorted(k[1]) * (2 if len(k[1]) == 1 else 1))[:40], "the coincidence test of that pair was not decided negatively"))
                 else:
                     _m, kk, ab = k
                     others = [frozenset((kk, a)) for a in ab]
                     if facts.get(("close", ab)) is not True:
-                        bad.append((s, f.text(f.kids(s)[1]), "vpm averages vp(%d), vp(%d) but their coincidence was not established" % tuple(sorted(ab))))
+                        bad.append((s, f.text(dv), "vpm averages vp(%s), vp(%s) but their coincidence was not established" % tuple(sorted(ab))))
                     elif not any(facts.get(("close", o)) is False for o in others):
-                        bad.append((s, f.text(f.kids(s)[1]), "vp(%d) is not known to differ from the coincident pair (%d, %d)" % ((kk,) + tuple(sorted(ab)))))
+                        bad.append((s, f.text(dv), "vp(%s) is not known to differ from the coincident pair (%s, %s)" % ((kk,) + tuple(sorted(ab)))))
         if n["k"] == "CallExpr" and (n.get("callee") or "").endswith("::computeEigenTensorsDerivatives") and "IsotropicFunctionDerivative<3" in f.display:
             # the distinct-eigenvalue formula: its three regularised quotients 1/(vp_i - vp_j) assume that no pair coincides
             if s not in seen_div:
                 seen_div.add(s)
                 nd[0] += 1
             facts = dict(st)
-            und = [p_ for p_ in (frozenset((0, 1)), frozenset((0, 2)), frozenset((1, 2))) if facts.get(("close", p_)) is not False]
+            und = [p_ for p_ in (frozenset(("0", "1")), frozenset(("0", "2")), frozenset(("1", "2"))) if facts.get(("close", p_)) is not False]
             if und:
                 bad.append((s, "computeEigenTensorsDerivatives", "the coincidence of the pair(s) %s was not decided negatively (the case analysis over "
-                            "coincident eigenvalues is not exhaustive)" % ", ".join("(%d, %d)" % tuple(sorted(p_)) for p_ in und)))
+                            "coincident eigenvalues is not exhaustive)" % ", ".join("(%s, %s)" % tuple(sorted(p_)) for p_ in und)))
         return (st,)
 
     def ed(st, b, succ, pol):
@@ -168,7 +202,7 @@ def guard_rule(rep, f):
         rep.ok("%s: every division by an eigenvalue difference is guarded by the coincidence test of that pair (%d divisions)" % (name_of(f), nd[0]))
 
 
-def tensors_of(f, sid):
+def tensors_of(f, sid, scaled=False):
     """set of index pairs {I,J} for an expression made of (nIJ ^ nIJ) terms (possibly a sum); None if something else."""
     sid = f.strip(sid)
     n = f.stmts.get(sid)
@@ -178,13 +212,17 @@ def tensors_of(f, sid):
         a, b = f.text(f.strip(n["args"][0])), f.text(f.strip(n["args"][1]))
         m = re.match(r"^n(\d)(\d)$", a)
         if m and a == b:
-            return {frozenset((int(m.group(1)), int(m.group(2))))}
+            return {frozenset((m.group(1), m.group(2)))}
         return None
     if n["k"] == "CXXOperatorCallExpr" and n.get("op") == "+" and len(n.get("args", [])) == 2:
         l, r = tensors_of(f, n["args"][0]), tensors_of(f, n["args"][1])
         if l is None or r is None:
             return None
         return l | r
+    if n["k"] == "CXXOperatorCallExpr" and n.get("op") == "*" and len(n.get("args", [])) == 2 and scaled:
+        # scalar * (nIJ ^ nIJ)
+        r = tensors_of(f, n["args"][1])
+        return r if r is not None else tensors_of(f, n["args"][0])
     return None
 
 
@@ -192,18 +230,29 @@ def coupling_rule(rep, f):
     means = mean_of(f)
     nt = 0
     for s, n in sorted(f.stmts.items()):
-        if not (n["k"] == "CXXOperatorCallExpr" and n.get("op") == "*" and len(n.get("args", [])) == 2):
+        if not (n["k"] == "CXXOperatorCallExpr" and n.get("op") in ("*", "/") and len(n.get("args", [])) == 2):
             continue
-        ts = tensors_of(f, n["args"][1])
-        if not ts:
-            continue
-        q = f.strip(n["args"][0])
-        qn = f.stmts.get(q)
         key = None
-        if qn is not None and qn["k"] == "BinaryOperator" and qn.get("op") == "/":
-            key = divisor_key(f, f.kids(q)[1], means)
-        elif qn is not None and qn["k"] == "CallExpr" and (qn.get("callee") or "").endswith("regularized_inverse") and qn.get("args"):
-            key = divisor_key(f, qn["args"][0], means)
+        if n["op"] == "/":
+            # (nIJ ^ nIJ) / (vp[a] - vp[b])
+            ts = tensors_of(f, n["args"][0], scaled=True)
+            if not ts:
+                continue
+            key = divisor_key(f, n["args"][1], means)
+            q, qn, dtext = None, None, f.text(n["args"][1])
+        else:
+            ts = tensors_of(f, n["args"][1])
+            if not ts:
+                continue
+            q = f.strip(n["args"][0])
+            qn = f.stmts.get(q)
+            dtext = None
+            if qn is not None and qn["k"] == "BinaryOperator" and qn.get("op") == "/":
+                key = divisor_key(f, f.kids(q)[1], means)
+                dtext = f.text(f.kids(q)[1])
+            elif qn is not None and qn["k"] == "CallExpr" and (qn.get("callee") or "").endswith("regularized_inverse") and qn.get("args"):
+                key = divisor_key(f, qn["args"][0], means)
+                dtext = f.text(qn["args"][0])
         if key is None:
             continue
         nt += 1
@@ -212,14 +261,14 @@ def coupling_rule(rep, f):
         else:
             want = {frozenset((key[1], a)) for a in key[2]}
         if ts == want:
-            rep.ok("%s: %s couples %s" % (name_of(f), f.text(f.kids(q)[1]) if qn["k"] == "BinaryOperator" else f.text(qn["args"][0]),
-                                          " and ".join("n%d%d" % tuple(sorted(t)) for t in sorted(ts, key=sorted))), sample=False)
+            rep.ok("%s: %s couples %s" % (name_of(f), dtext,
+                                          " and ".join("n%s%s" % tuple(sorted(t)) for t in sorted(ts, key=sorted))), sample=False)
         else:
             rep.fail("COUPLING@%s#%s" % (re.sub(r"<.*", "", name_of(f)), rel(f.short_loc(s)).rsplit(":", 1)[-1]),
                      "%s: in %s the quotient by %s multiplies %s; the mixed tensor n_ij couples the eigenvalues i and j only, so it must multiply %s"
-                     % (rel(f.short_loc(s)), name_of(f), f.text(f.kids(q)[1]) if qn["k"] == "BinaryOperator" else f.text(qn["args"][0]),
-                        " + ".join("n%d%d" % tuple(sorted(t)) for t in sorted(ts, key=sorted)),
-                        " + ".join("n%d%d" % tuple(sorted(t)) for t in sorted(want, key=sorted))))
+                     % (rel(f.short_loc(s)), name_of(f), dtext,
+                        " + ".join("n%s%s" % tuple(sorted(t)) for t in sorted(ts, key=sorted)),
+                        " + ".join("n%s%s" % tuple(sorted(t)) for t in sorted(want, key=sorted))))
     rep.count("coupling terms q * (nIJ ^ nIJ)", nt)
 
 
